@@ -638,6 +638,13 @@ func c13RunOps(c *ev.Ctx, ops map[string]c13Op, names []string) {
 			c.Violation("C13:mismatch:"+opClass(n), fmt.Sprintf("%s (%s): %s", n, pos, msg), k)
 			return
 		}
+		// arguments handed to the served agent must stay what they were after later requests on the same connection
+		for ci, cl := range st.Calls {
+			if cl.KeyObj != nil && !bytes.Equal(cl.KeyObj.Marshal(), cl.KeyBlob) {
+				c.Violation("C13:argument-mutated-after-call:"+cl.Op, fmt.Sprintf("the key handed to the served agent by call %d (%s) changed after a later request (%s) was served on the same connection", ci, cl.Op, n), k)
+				return
+			}
+		}
 	}
 	c.Nontrivial(strings.Join(names, ">"))
 }
